@@ -16,6 +16,22 @@ def dist(base, i, j):
   return ('dist', Quad(D, LT_L, gram=next(iter(LT.terms))))
 
 
+def c04_dom():
+  """C04 is about the decision rules *given* the learned distance: the
+  body of MahalanobisMixin.pair_distance (decided by C01/C02) is summarised
+  as the distance atom D(slot_i, slot_j) of the 2-slot tuple it receives."""
+  dom = new_dom()
+
+  def pd(args, kwargs):
+    p = args[1] if len(args) > 1 else kwargs.get('pairs')
+    if p is not None and isinstance(p.d, Tup) and p.d.slots is not None and \
+            len(p.d.slots) == 2:
+      return Lin({dist(p.d.base, p.d.slots[0], p.d.slots[1]): 1})
+    return None
+  dom.summaries['base_metric.MahalanobisMixin.pair_distance'] = pd
+  return dom
+
+
 def run(repo, c, name, args):
   f = repo.resolve_method(c, name)
   if not isinstance(f, FuncInfo):
@@ -80,7 +96,7 @@ def check(repo, rep, tier):
       args = {ps[0]: tup}
       if len(ps) > 1:
         args[ps[1]] = yv
-      dom = new_dom()
+      dom = c04_dom()
       eng = Engine(repo, dom, self_cls=c)
       st0 = None
       if name == 'predict' and t == 2:
